@@ -8,7 +8,7 @@
    is the way the source has on this run (Tables.v). [compiles r] says that the
    model's regexp accepts r; every rule of the fragment [rule_ok] does. *)
 From Coq Require Import Permutation.
-From G17 Require Import Model Check Fragment Proofs Obligations.
+From G17 Require Import Model Check Fragment Proofs WiringExpected Obligations.
 
 (* The list matches a host iff some include rule, taken on its own from the
    default flags, matches it and no exclude rule does — for all rule lists
@@ -82,6 +82,14 @@ Proof. exact (fun rules => conj (show_join_bar rules)
   (eq_trans (show_join_bar (map wrap rules))
             (f_equal (join [124]) (eq_trans (map_map wrap show rules) (map_ext _ _ show_wrap rules))))). Qed.
 Print Assumptions T17_join_is_text_concat.
+
+(* The lists are used as read (Obligations.ob_wiring): at the three call sites Match receives
+   req.URL.Hostname(), the bare host name of the request target, and command/run builds every matcher
+   with NewRegexpMatcherFromList from exactly the list the flag parser produced.  The end-to-end run
+   (real binary, --deny-domains) checks the same on generated targets. *)
+Theorem T17_lists_used_as_read : wiring = WiringExpected.wiring_expected.
+Proof. exact ob_wiring. Qed.
+Print Assumptions T17_lists_used_as_read.
 
 (* ---- the two joined shapes (kept: they are what a revert would bring back) ---- *)
 
